@@ -5,7 +5,7 @@ use std::convert::TryFrom;
 pub(crate) fn apply_escapes(origin: &str) -> Result<String, CompilationError> {
     lazy_static! {
         static ref RE: Regex = Regex::new(r"\\(u\{.+?\}|.)").unwrap();
-        static ref BYTECODE: Regex = Regex::new("[a-fA-F0-9]{1,6}$").unwrap();
+        static ref BYTECODE: Regex = Regex::new("^[a-fA-F0-9]{1,6}$").unwrap();
     }
     // invariant, the last character in the string cannot be a slash
     let mut ret = String::with_capacity(origin.len());
